@@ -40,5 +40,17 @@ func init() {
 			Old: "\tif pipe.Retain != nil {\n\t\tfor _, binding := range pipe.Retain.Refs {\n\t\t\tif binding.Kind == syntax.KindCall {\n\t\t\t\tcalls.Remove(binding.Id)\n\t\t\t}\n\t\t}\n\t}\n", New: "", Expect: "G1"},
 		Mutant{Name: "c19-toplevel-call-not-renamed", Property: "C19", File: "martian/syntax/refactoring/rename_callable.go",
 			Old: "\tif e.Pipeline == nil {\n\t\tif ast.Call == nil {\n\t\t\treturn 0, nil\n\t\t}\n\t\tif ast.Call.Id != e.OldId ||\n\t\t\tsyntax.DefiningFile(ast.Call) != e.File {\n\t\t\treturn 0, nil\n\t\t}\n\t\tast.Call.DecId = e.DecId\n\t\tast.Call.Id = e.Id\n\t\treturn 1, nil\n\t}", New: "\tif e.Pipeline == nil {\n\t\treturn 0, nil\n\t}", Expect: "G1"},
+		Mutant{Name: "c07-mapcheck-on-unprojected-type", Property: "C07", File: "martian/syntax/compile_params.go",
+			Old: "\t\t\tif t.MapDim != 0 {", New: "\t\t\tif param.GetTname().MapDim != 0 {", Expect: "T3"},
+		Mutant{Name: "c07-getmap-no-nesting-check", Property: "C07", File: "martian/syntax/type_lookup.go",
+			Old: "\tif id.MapDim != 0 {\n\t\tpanic(\"map<map> is not allowed!\")\n\t}\n", New: "", Expect: "T3"},
+		Mutant{Name: "c07-benign-mapcheck-gt", Property: "C07", File: "martian/syntax/compile_params.go",
+			Old: "\t\t\tif t.MapDim != 0 {", New: "\t\t\tif t.MapDim > 0 {", Expect: ""},
+		Mutant{Name: "c19-rename-output-prefix-match", Property: "C19", File: "martian/syntax/refactoring/rename_callable.go",
+			Old: "\tif len(ref.OutputId) < len(oldName) {\n\t\treturn ref\n\t}\n\tif i := strings.IndexByte(ref.OutputId, '.'); i > 0 && ref.OutputId[:i] == oldName {", New: "\tif len(ref.OutputId) < len(oldName) {\n\t\treturn ref\n\t}\n\tif i := len(oldName); strings.HasPrefix(ref.OutputId, oldName) {", Expect: "G3"},
+		Mutant{Name: "c19-rename-output-prefix-slice", Property: "C19", File: "martian/syntax/refactoring/rename_callable.go",
+			Old: "\tif i := strings.IndexByte(ref.OutputId, '.'); i > 0 && ref.OutputId[:i] == oldName {", New: "\tif i := len(oldName); strings.IndexByte(ref.OutputId, '.') != 0 && ref.OutputId[:i] == oldName {", Expect: "G3"},
+		Mutant{Name: "c19-benign-prefix-with-dot", Property: "C19", File: "martian/syntax/refactoring/rename_callable.go",
+			Old: "\tif i := strings.IndexByte(ref.OutputId, '.'); i > 0 && ref.OutputId[:i] == oldName {", New: "\tif i := len(oldName); strings.HasPrefix(ref.OutputId, oldName+\".\") {", Expect: ""},
 	)
 }
